@@ -306,6 +306,7 @@ def identifier_forwarding_rule(ctx: Ctx, model, rid: str) -> None:
     """Wherever a function of the circuit package holds an identifier map and asks a child for its expression, it hands the
     map (or the child's entry of it) on: otherwise the child numbers its elements afresh and the same variable name
     denotes different elements in different parts of one expression."""
+    _connection_dispatch_rule(ctx, model, rid)
     n = 0
     for q, fi in sorted(model.funcs.items()):
         if not fi.module.startswith("pyimpspec.circuit"):
@@ -615,3 +616,64 @@ def recompute_rule(ctx: Ctx, model, rid: str) -> None:
                           f"{qual} stores into {norm(stores[0].targets[0] if isinstance(stores[0], ast.Assign) else stores[0].target)}: identifier maps must not be kept on the object")
         else:
             ctx.ok()
+
+
+
+def _connection_dispatch_rule(ctx: Ctx, model, rid: str) -> None:
+    """Series.to_sympy / Parallel.to_sympy interpreted (sa.miniinterp) on one child of every kind — a connection, a container
+    element, a plain element: connections and containers must be handed the identifier map in use (their nested elements are
+    named from it), plain elements their own entry of it."""
+    import sympy as sp
+    from ..miniinterp import InterpRaise, Mini, Obj, module_globals
+
+    class Element:
+        def __init__(self, name):
+            self.name, self.calls = name, []
+
+        def to_sympy(self, *a, **kw):
+            self.calls.append((a, kw))
+            return sp.Symbol(self.name)
+
+    class Container(Element):
+        pass
+
+    class Connection(Element):
+        pass
+    for mod, qual in (("pyimpspec.circuit.series", "Series.to_sympy"), ("pyimpspec.circuit.parallel", "Parallel.to_sympy")):
+        fi = model.fi(mod, qual)
+        for given in (True, False):
+            kids = [Connection("conn"), Container("cont"), Element("elem")]
+            the_map = {k: i + 3 for i, k in enumerate(kids)}
+            st = {"Element": Element, "Container": Container, "Connection": Connection, "sympify": sp.sympify, "_is_boolean": lambda x: isinstance(x, bool),
+                  "Series": type("Series", (Connection,), {}), "Parallel": type("Parallel", (Connection,), {})}
+            g = module_globals(ctx.repo.modules[mod].tree, st)
+            g.update(st)
+            mi = Mini(g, max_steps=50000)
+            me = Obj(mi, {}, {"_elements": kids, "generate_element_identifiers": (lambda *a, **k: the_map)})
+            ctx.instance(rid, f"{qual} interpreted on a connection, a container and an element ({'caller gives the identifier map' if given else 'no map given'})")
+            try:
+                mi.call_bound(fi.node, me, (), {"substitute": False, **({"identifiers": the_map} if given else {})})
+            except InterpRaise as e:
+                ctx.violation(rid, f"{qual}:dispatch", mod, fi.node, f"{qual} raises {e.kind} for a connection holding a connection, a container and an element")
+                continue
+            bad = None
+            for k in kids:
+                if len(k.calls) != 1:
+                    bad = f"the {type(k).__name__.lower()} child is asked for its expression {len(k.calls)} times"
+                    break
+                a, kw = k.calls[0]
+                if a:
+                    raise AnalysisError(f"{qual}: positional arguments in the child's to_sympy call")
+                if kw.get("substitute") is not False:
+                    bad = f"the {type(k).__name__.lower()} child receives substitute={kw.get('substitute')!r} instead of the caller's"
+                elif isinstance(k, (Connection, Container)) and kw.get("identifiers") is not the_map:
+                    bad = (f"the {type(k).__name__.lower()} child is not handed the identifier map in use (it receives {sorted(kw)}): the elements nested in it are numbered afresh, "
+                           "so one variable name can denote two elements (fewer variables than parameters)")
+                elif type(k) is Element and kw.get("identifier") != the_map[k]:
+                    bad = f"the plain element receives identifier={kw.get('identifier')!r} instead of its entry {the_map[k]} of the map"
+                if bad:
+                    break
+            if bad:
+                ctx.violation(rid, f"{qual}:dispatch", mod, fi.node, f"{qual}: {bad}")
+            else:
+                ctx.ok()
